@@ -332,7 +332,7 @@ PROPS = {
     },
     "C11": {
         "families": {"lru": {"quick": 64, "thorough": 400, "search": 100,
-                              "components": ["mismatch", "monitor", "monitor:C11"]}},
+                              "components": ["mismatch", "monitor", "monitor:C11", "mismatch:C11"]}},
         "signature": sig_c11,
         "trusted_base": [
             "model coq/Model/LRU.v + Dispatcher.v is hand-written from groupcache/lru and cache/dispatcher.go; tied by the lru family (entry identity + per-op resident counts) and by the constants regenerated from NewDispatcher",
